@@ -71,13 +71,13 @@ Theorem C12_f64_negzero_agree :
 Proof. exact f64_negzero_agree. Qed.
 Print Assumptions C12_f64_negzero_agree.
 
-(* REFUTED on the pinned tree: vars.Stack.Push admits MaxStack frames, the JIT's save_state one less
-   (values needing exactly MaxStack frames encode under the interpreter and fail under the JIT) *)
-Theorem C12_stack_bound_refuted : p_stack prims_vm = 4096%N /\ p_stack prims_jit = 4095%N.
-Proof. exact stack_bound_refuted. Qed.
+(* the state-stack bound was refuted on the pinned tree (vars.Stack.Push admitted MaxStack frames, the JIT's save_state
+   one less: JAE instead of JA); repaired by fix a4d60f7 - both bounds are generated from the sources *)
+Theorem C12_stack_bound_agree : p_stack prims_vm = p_stack prims_jit /\ p_stack prims_vm = MaxStack.
+Proof. exact stack_bound_agree. Qed.
 
-(* the weaker statement with the exact guard: apart from the stack bound (and the digit oracle of zeros) the executors
-   are the same machine *)
+(* the executors are the same machine up to the digit oracle of zeros (the interpreter's `v == 0` branch prints "0"/"-0"
+   itself, the JIT prints the native routine's digits) *)
 Theorem C12_exec_agree_partial : forall e co flags v,
   encode prims_vm e co flags v = encode prims_jit_repaired e co flags v.
 Proof. exact exec_agree_partial. Qed.
